@@ -117,8 +117,8 @@ func (w *Worker) ensureInit(e *Exec, pkg *ssa.Package) {
 	if initFn == nil {
 		return
 	}
-	saved := e.inInit
-	e.inInit = true
+	saved, savedPkg := e.inInit, e.initPkg
+	e.inInit, e.initPkg = true, pkg
 	savedStack := e.callStack
 	func() {
 		defer func() {
@@ -135,7 +135,7 @@ func (w *Worker) ensureInit(e *Exec, pkg *ssa.Package) {
 		e.run(initFn, nil, nil)
 	}()
 	e.callStack = savedStack
-	e.inInit = saved
+	e.inInit, e.initPkg = saved, savedPkg
 }
 
 type PathSummary struct {
